@@ -107,7 +107,7 @@ func pickScenario(prop string, i int, only string) *Scenario {
 	if tot == 0 {
 		return nil
 	}
-	k := i % tot
+	k := (i + i/tot) % tot // rotate the slots block by block: a worker's stride must not pin it to one scenario
 	for _, s := range list {
 		if k < s.Weight {
 			return s
@@ -128,7 +128,7 @@ func scenarioOrdinal(prop string, i int) int {
 	if tot == 0 {
 		return i
 	}
-	k := i % tot
+	k := (i + i/tot) % tot // rotate the slots block by block: a worker's stride must not pin it to one scenario
 	for _, s := range list {
 		if k < s.Weight {
 			return (i/tot)*s.Weight + k
